@@ -2363,3 +2363,7 @@ mod tests {
         assert_eq!(buf, [0x80, 1, 0, 0, 0x80, 0, 0, 0]);
     }
 }
+
+#[cfg(feature = "pendulum_project_ntpd_rs_verif")]
+#[path = "/verif/hooks/ntp-proto/nts_messages.rs"]
+pub mod verif_hooks;
